@@ -54,17 +54,251 @@ func limitLoad(v ssa.Value) (k int64, ok bool) {
 	return eng.ConstInt(ia.Index)
 }
 
+// limitLoadP is limitLoad with the level possibly given by an integer parameter of the enclosing function:
+// returns the constant level (param = -1) or the parameter index.
+func limitLoadP(v ssa.Value) (k int64, param int, ok bool) {
+	if k, ok := limitLoad(v); ok {
+		return k, -1, true
+	}
+	ld, isLoad := v.(*ssa.UnOp)
+	if !isLoad || ld.Op != token.MUL {
+		return 0, -1, false
+	}
+	ia, isIA := ld.X.(*ssa.IndexAddr)
+	if !isIA {
+		return 0, -1, false
+	}
+	g, isG := ia.X.(*ssa.Global)
+	if !isG || g.Name() != "MaxGeometryElements" || g.Pkg.Pkg.Path() != mod+"/encoding/wkbcommon" {
+		return 0, -1, false
+	}
+	if prm, isP := eng.StripConv(ia.Index).(*ssa.Parameter); isP {
+		for i, q := range prm.Parent().Params {
+			if q == prm {
+				return 0, i, true
+			}
+		}
+	}
+	return 0, -1, false
+}
+
+// helperGuard summarises a function that performs the limit check on behalf of its callers: it returns a nil error
+// only after the count parameter passed `limit >= 0 && n > limit` for MaxGeometryElements[level] (level a constant
+// or another parameter), and its fail edge returns ErrGeometryTooLarge with that level.
+type helperGuard struct {
+	countParam int
+	level      int64
+	levelParam int // -1: constant level
+}
+
+func helperGuards(fns []*ssa.Function) map[*ssa.Function]helperGuard {
+	out := map[*ssa.Function]helperGuard{}
+	for _, fn := range fns {
+		res := fn.Signature.Results()
+		if res.Len() == 0 || !eng.IsErrorType(res.At(res.Len()-1).Type()) || len(fn.Blocks) == 0 {
+			continue
+		}
+		for pi, prm := range fn.Params {
+			if b, ok := prm.Type().Underlying().(*types.Basic); !ok || b.Info()&types.IsInteger == 0 {
+				continue
+			}
+			count := map[ssa.Value]bool{prm: true}
+			for v := range eng.IntFlow(prm) {
+				if eng.StripConv(v) == ssa.Value(prm) {
+					count[v] = true
+				}
+			}
+			blocked := eng.EdgeSet{}
+			var level int64
+			levelParam := -2
+			okGuard := true
+			for _, b := range fn.Blocks {
+				for edge := 0; edge < 2; edge++ {
+					if eng.BlockIf(b) == nil {
+						continue
+					}
+					c, ok := eng.EdgeCmp(b, edge)
+					if !ok {
+						continue
+					}
+					x, y, op := c.X, c.Y, c.Op
+					if op == token.LSS {
+						x, y, op = y, x, token.GTR
+					}
+					if op != token.GTR || !count[x] {
+						continue
+					}
+					k, lp, isLimit := limitLoadP(y)
+					if !isLimit {
+						continue
+					}
+					if levelParam != -2 && (lp != levelParam || k != level) {
+						okGuard = false
+					}
+					level, levelParam = k, lp
+					blocked[[2]int{b.Index, 1 - edge}] = true
+					// the fail edge must return ErrGeometryTooLarge (level checked by the caller-side rule for constants)
+					for fb := range eng.ReachableFromEdge(b, edge, nil) {
+						for _, in := range fb.Instrs {
+							if ret, isRet := in.(*ssa.Return); isRet {
+								e := ret.Results[len(ret.Results)-1]
+								mi, isMI := e.(*ssa.MakeInterface)
+								if !isMI || namedTypeQual(mi.X.Type()) != mod+"/encoding/wkbcommon.ErrGeometryTooLarge" {
+									okGuard = false
+								} else if !tooLargeLevelIs(mi, k, lp, fn) {
+									okGuard = false
+								}
+							}
+						}
+					}
+				}
+			}
+			if levelParam == -2 || !okGuard {
+				continue
+			}
+			// `limit >= 0` on the same limit: its false edge (limits disabled) legitimately skips the comparison
+			for _, b := range fn.Blocks {
+				if eng.BlockIf(b) == nil {
+					continue
+				}
+				c2, ok := eng.EdgeCmp(b, 0)
+				if !ok {
+					continue
+				}
+				x2, y2, op2 := c2.X, c2.Y, c2.Op
+				if op2 == token.LEQ {
+					x2, y2, op2 = y2, x2, token.GEQ
+				}
+				if op2 != token.GEQ {
+					continue
+				}
+				k2, lp2, isL := limitLoadP(x2)
+				if z, isZ := eng.ConstInt(y2); isL && isZ && z == 0 && k2 == level && lp2 == levelParam {
+					blocked[[2]int{b.Index, 1}] = true
+				}
+			}
+			reach := eng.Reachable(fn.Blocks[0], blocked)
+			nilReturn := false
+			for b := range reach {
+				for _, in := range b.Instrs {
+					if ret, isRet := in.(*ssa.Return); isRet {
+						if eng.IsNilConst(ret.Results[len(ret.Results)-1]) {
+							nilReturn = true
+						}
+					}
+				}
+			}
+			if !nilReturn {
+				out[fn] = helperGuard{countParam: pi, level: level, levelParam: levelParam}
+			}
+		}
+	}
+	return out
+}
+
+// tooLargeLevelIs: the Level field of the ErrGeometryTooLarge behind mi is the constant k (lp < 0) or parameter lp.
+func tooLargeLevelIs(mi *ssa.MakeInterface, k int64, lp int, fn *ssa.Function) bool {
+	ld, ok := mi.X.(*ssa.UnOp)
+	if !ok || ld.Op != token.MUL {
+		return false
+	}
+	a, ok := ld.X.(*ssa.Alloc)
+	if !ok {
+		return false
+	}
+	st := a.Type().(*types.Pointer).Elem().Underlying().(*types.Struct)
+	for _, ar := range eng.Referrers(a) {
+		fa, ok := ar.(*ssa.FieldAddr)
+		if !ok || st.Field(fa.Field).Name() != "Level" {
+			continue
+		}
+		for _, fr := range eng.Referrers(fa) {
+			s, ok := fr.(*ssa.Store)
+			if !ok {
+				continue
+			}
+			if lp < 0 {
+				if c, isC := eng.ConstInt(s.Val); isC && c == k {
+					return true
+				}
+			} else if prm, isP := eng.StripConv(s.Val).(*ssa.Parameter); isP && lp < len(fn.Params) && fn.Params[lp] == prm {
+				return true
+			}
+		}
+	}
+	return false
+}
+
 type countGuard struct {
 	block    *ssa.BasicBlock // the `n > limit` If
 	failEdge int
 	level    int64
 	limit    ssa.Value
 	disabled []*ssa.BasicBlock // `limit >= 0` If blocks on the same level
+	viaCall  *ssa.Call         // the guard is `if err := helper(level, n); err != nil` (helperGuard summary)
 }
 
 // countGuards finds the limit guards on count (a value set derived by conversion only from the source).
-func countGuards(fn *ssa.Function, count map[ssa.Value]bool) []countGuard {
+func countGuards(fn *ssa.Function, count map[ssa.Value]bool, helpers map[*ssa.Function]helperGuard) []countGuard {
 	var out []countGuard
+	for _, ci := range eng.Calls(fn) {
+		call, ok := ci.(*ssa.Call)
+		if !ok {
+			continue
+		}
+		hg, ok := helpers[call.Call.StaticCallee()]
+		if !ok || hg.countParam >= len(call.Call.Args) || !count[call.Call.Args[hg.countParam]] {
+			continue
+		}
+		level := hg.level
+		if hg.levelParam >= 0 {
+			k, isC := eng.ConstInt(call.Call.Args[hg.levelParam])
+			if !isC {
+				continue
+			}
+			level = k
+		}
+		// the error result
+		var errv ssa.Value = call
+		if call.Call.Signature().Results().Len() > 1 {
+			errv = nil
+			for _, rf := range eng.Referrers(call) {
+				if ex, isEx := rf.(*ssa.Extract); isEx && ex.Index == call.Call.Signature().Results().Len()-1 {
+					errv = ex
+				}
+			}
+		}
+		if errv == nil {
+			continue
+		}
+		for _, b := range fn.Blocks {
+			ifi := eng.BlockIf(b)
+			if ifi == nil {
+				continue
+			}
+			bo, isB := ifi.Cond.(*ssa.BinOp)
+			if !isB || (bo.Op != token.NEQ && bo.Op != token.EQL) {
+				continue
+			}
+			var other ssa.Value
+			switch {
+			case bo.X == errv:
+				other = bo.Y
+			case bo.Y == errv:
+				other = bo.X
+			default:
+				continue
+			}
+			if !eng.IsNilConst(other) {
+				continue
+			}
+			fail := 0
+			if bo.Op == token.EQL {
+				fail = 1
+			}
+			out = append(out, countGuard{block: b, failEdge: fail, level: level, viaCall: call})
+		}
+	}
 	for _, b := range fn.Blocks {
 		for edge := 0; edge < 2; edge++ {
 			if eng.BlockIf(b) == nil {
@@ -151,6 +385,25 @@ func caseConstant(b *ssa.BasicBlock) (int64, bool) {
 // failEdgeReturnsTooLarge checks that everything reachable from the fail edge is a
 // Return whose error is ErrGeometryTooLarge with Level == level.
 func failEdgeReturnsTooLarge(g countGuard) (bool, string) {
+	if g.viaCall != nil {
+		// the helper's own fail edge was checked by its summary; here the caller must hand the error on
+		for b := range eng.ReachableFromEdge(g.block, g.failEdge, nil) {
+			if b == g.block {
+				return false, "fail edge loops back to the guard"
+			}
+			for _, in := range b.Instrs {
+				switch x := in.(type) {
+				case *ssa.Return:
+					if len(x.Results) == 0 || eng.IsNilConst(x.Results[len(x.Results)-1]) {
+						return false, "the error of the limit helper is dropped on the fail edge"
+					}
+				case *ssa.MakeSlice:
+					return false, "allocation on the fail edge"
+				}
+			}
+		}
+		return true, ""
+	}
 	region := eng.ReachableFromEdge(g.block, g.failEdge, nil)
 	nret := 0
 	for b := range region {
@@ -215,6 +468,8 @@ func c04(p *core.Program, r *core.Report) {
 	r.Rule(rule1, "every value derived from a decoded count (wkbcommon.ReadUInt32) that sizes an allocation, bounds a loop or is passed to a callee that does either, is unreachable from function entry once the pass edges of `limit >= 0 && int(n) > limit` (limit = MaxGeometryElements[k], same count) are deleted; the fail edge returns ErrGeometryTooLarge{Level:k}; k equals the level table {coordinate array 1, ring list 2, MultiPoint 1, MultiLineString 2, MultiPolygon 3, EWKB collection 1}", 10)
 	fns := pkgFuncs(p, decoderPkgs...)
 	paramSinks := eng.ParamSizeSinks(pkgFuncs(p, append([]string{""}, decoderPkgs...)...))
+	helpers := helperGuards(fns)
+	r.Count("limit_helpers", len(helpers))
 	// expected level by (package, dominating case constant) / function
 	expectLevel := func(fn *ssa.Function, src *ssa.Call) (int64, string) {
 		switch short(fn) {
@@ -277,13 +532,18 @@ func c04(p *core.Program, r *core.Report) {
 						continue
 					}
 				}
+				if cl, ok := s.Instr.(*ssa.Call); ok {
+					if _, isH := helpers[cl.Call.StaticCallee()]; isH {
+						continue // the call that performs the limit check
+					}
+				}
 				real = append(real, s)
 			}
 			if len(real) == 0 {
 				continue
 			}
 			ord := ordinalOf(fn, c)
-			guards := countGuards(fn, count)
+			guards := countGuards(fn, count, helpers)
 			blocked := eng.EdgeSet{}
 			for _, g := range guards {
 				blocked[[2]int{g.block.Index, 1 - g.failEdge}] = true
